@@ -1098,6 +1098,7 @@ def build_single_qudit_retarget_workflow(
 ) -> BasePass:
     """Build a pass to convert single-qudit-gates to the native gate set."""
     sq_synthesis = QSearchSynthesisPass(
+        success_threshold=synthesis_epsilon,
         layer_generator=SingleQuditLayerGenerator(None, allow_repeats=True),
         heuristic_function=DijkstraHeuristic(),
         instantiate_options={
@@ -1656,6 +1657,7 @@ def _synthesis_workflow(
             )
 
     sq_synthesis = QSearchSynthesisPass(
+        success_threshold=synthesis_epsilon,
         layer_generator=SingleQuditLayerGenerator(None, allow_repeats=True),
         heuristic_function=DijkstraHeuristic(),
         instantiate_options={
